@@ -41,6 +41,13 @@ CHECKS = {
         note=PROOF_NOTE + "Modelled, not verified: torch optimisers, GradScaler(enabled=False), LambdaLR; one backward() per _do_iteration; resume inside an accumulation window (gradients are not checkpointed) is outside the theorem and only exercised.",
         technique="Coq proof over a loop IR regenerated from the source (case split on guards + induction over iterations) + exact correspondence through the real training loop",
         design="§6 C16"),
+    "C14": dict(
+        text="Theorem over the reconstruct_volumes state machine (last_filename / curr_volume / slice_counter / volume_size) for every sequence of volumes delivered as non-empty batches of consecutive slices, any names, items and per-slice function: "
+             "exactly one output per volume, in order, k-th slice = processed output of the k-th slice; composed with the chunking of the volume batch sampler the result is independent of the batch size. "
+             "The state machine is tied to the code by exact correspondence through the real Engine.predict -> reconstruct_volumes -> _process_output with a marker model (per-slice scaling factors, header crop, world/rank, 0-2 workers).",
+        note=PROOF_NOTE + "The C14 model is hand-written (no translator). Modelled, not verified: DataLoader ordering with workers, default collate, per-sample action of _process_output (validated by pixel checks), C13 for the batches.",
+        technique="Coq proof (induction over volumes and batches of the bookkeeping state machine) + exact correspondence through the real predict loop",
+        design="§6 C14"),
 }
 
 PENDING = {
